@@ -37,7 +37,7 @@ def gen_cases(tier, seed):
     for i in range(2000 if q else 20000):
         yield "witness_stack", {"salt": rng.getrandbits(40), "n": rng.choice([0, 0, 1, 2, 3, 5, 20]), "big": i % 40 == 0}
     for i in range(60 if q else 900):
-        yield "cli", {"salt": rng.getrandbits(40), "witness": i % 2 == 0, "n": rng.randrange(0, 8), "lead0": (i // 2) % 3, "ofmt": ["hex", "bin", "raw"][(i // 6) % 3]}
+        yield "cli", {"salt": rng.getrandbits(40), "witness": i % 2 == 0, "n": rng.randrange(0, 8), "lead0": (i // 2) % 3, "ofmt": ["hex", "bin"][(i // 6) % 2]}
     for n in range(1, 17):
         for m in range(1, n + 1):
             yield "multisig", {"m": m, "n": n, "salt": rng.getrandbits(32)}
@@ -219,7 +219,7 @@ def run_case(kind, params, ctx):
         if any(a == "" for a in argv[1:]):
             ctx.count("cli.class.empty_witness_item")
         ofmt = params.get("ofmt", "hex")
-        r = clihelp.run(argv + [clihelp.out_flag(ofmt)], b"")
+        r = clihelp.run([clihelp.out_flag(ofmt)] + argv, b"")     # `script` itself declares no -0: the base parser option goes first
         got = clihelp.parse_out(r["out"], ofmt)
         if ofmt != "raw" and got is not None and len(r["out"].strip()) != len(exp) * (2 if ofmt == "hex" else 8):
             got = None          # the printed text must have exactly 2 (8) digits per byte
